@@ -41,6 +41,8 @@ structure TRec where
   holderPower : Int
   claimed : Bool
   tips : Int
+  grp : String := "-"
+  gstake : Int := 0
 
 structure CRec where
   id : Nat
@@ -213,7 +215,8 @@ def scanSettle (out : String) : StScan := Id.run do
         | [id, p, a, fb] => do pure ⟨← parseNat? id, p, ← parseInt? a, fb == "true"⟩ | _ => none) } }
     else if rec.startsWith "T" then
       sc := { sc with cur := { sc.cur with ts := (commaList (rec.drop 2).toString).filterMap (fun e => match colon e with
-        | [id, v, vo, rp, hp, cl, tp] => do pure ⟨← parseNat? id, v, ← parseNat? vo, ← parseInt? rp, ← parseInt? hp, cl == "true", ← parseInt? tp⟩ | _ => none) } }
+        | [id, v, vo, rp, hp, cl, tp, g, gs] => do pure ⟨← parseNat? id, v, ← parseNat? vo, ← parseInt? rp, ← parseInt? hp, cl == "true", ← parseInt? tp, g, ← parseInt? gs⟩
+        | [id, v, vo, rp, hp, cl, tp] => do pure ⟨← parseNat? id, v, ← parseNat? vo, ← parseInt? rp, ← parseInt? hp, cl == "true", ← parseInt? tp, "-", 0⟩ | _ => none) } }
     else if rec.startsWith "C" then
       sc := { sc with cur := { sc.cur with cs := (commaList (rec.drop 2).toString).filterMap (fun e => match colon e with
         | [id, u, rp, h, _t] => (parseNat? id).map (fun i => ⟨i, sum3 u, sum3 rp, sum3 h⟩) | _ => none) } }
